@@ -226,6 +226,12 @@ pub fn drop_anywhere() {
         // transfers may complete with an error status (an honest device that reports errors)
         with(|w| w.personality::<crate::devices::sound::SoundDev>().faulty = true);
     }
+    // (not for the GPU: its resource backing stays attached until the device is reset, which is
+    // outside what this property says about queue memory and posted buffers)
+    if kind != Kind::Gpu && flip(1, 3) {
+        with(|w| w.tr.no_reset_on_drop = true);
+        probe("transport_without_reset_on_drop");
+    }
     oplog(|| format!("{} over {tk:?}: drop at a random point of a usage history", zoo::kind_name(kind)));
     if let Err(e) = zoo::with_transport(tk, DropRun { kind }) {
         violation("transport-construction-failed", "zoo", e);
